@@ -109,6 +109,13 @@ theorem vShuffle_spec (gap : UInt8) (inplace : Bool) (alen : Nat) (msa : Array B
   vShuffleLoop_inv gap inplace msa alen hrows alen 1 msa r (Nat.le_refl _) (by omega)
     ⟨rfl, fun _ _ => rfl, fun c h1 h2 => by omega, fun _ _ => rfl⟩
 
+/-- `esl_msashuffle_VShuffle(rng, msa, msa)` (in place) computes exactly what it computes into a clone -/
+theorem vShuffle_inplace_eq (gap : UInt8) (alen : Nat) (msa : Array Bytes)
+    (hrows : ∀ i (h : i < msa.size), alen + 2 ≤ msa[i].size) (r : Rng) :
+    vShuffle gap true alen msa msa r = vShuffle gap false alen msa msa r :=
+  vShuffleLoop_inplace_eq gap msa alen hrows alen 1 msa r (Nat.le_refl _) (by omega)
+    ⟨rfl, fun _ _ => rfl, fun c h1 h2 => by omega, fun _ _ => rfl⟩
+
 /-- `esl_msashuffle_CQRNA` (`base = 0`, `isGap c` = `c` is one of the alphabet's gap characters) and
     `esl_msashuffle_XQRNA` (`base = 1`, `isGap c` = `c == abc->K`), for `x`, `y` of equal length: lengths kept; every
     column keeps its class `(isGap x[i], isGap y[i])` — so every gap stays where it was; the multiset of columns
